@@ -149,11 +149,22 @@ def main(run):
     lines = list(vlib.read_corpus("C13"))
     kinds = ["corpus"] * len(lines)
     n = 2500 if run.tier == "quick" else 60000
+    replay_stress = None
+    if getattr(run, "replay", None):
+        # --replay <file>: only the case / the stress command recorded in a replay file
+        txt = open(run.replay).read()
+        mcase = re.search(r"^case: (lk .*)$", txt, re.M)
+        mcmd = re.search(r"h_lock_stress (\d+) (\d+) (\d+)\s+\(variant (\w+)\)", txt)
+        lines = [mcase.group(1)] if mcase else []
+        kinds = ["replay"] * len(lines)
+        n = 0
+        if mcmd:
+            replay_stress = [(mcmd.group(4), int(mcmd.group(1)), int(mcmd.group(2)))]
     for _ in range(n):
         ln, style = gen_lock.gen_case(r)
         lines.append(ln)
         kinds.append("gen-" + style)
-    cat = gen_lock.CATALOGUE
+    cat = gen_lock.CATALOGUE if not getattr(run, "replay", None) else []
     lim = 40 if run.tier == "quick" else 3000
     for a in cat:
         for b in cat:
@@ -233,4 +244,10 @@ def main(run):
                       tag="config", no_input=True)
     run.cov["tie_seconds"] = round(time.time() - t0, 1)
     # ---- stress on the real API with real threads
+    if getattr(run, "replay", None):
+        for ln, co in zip(lines, oc):
+            vlib.log("replay: %s\n  impl: %s" % (ln, co))
+        if replay_stress:
+            lock_stress.stress(run, plan=replay_stress)
+        return
     lock_stress.stress(run)
